@@ -282,7 +282,10 @@ def build(s):
     if k == "negate":
         return R.Negate(build(s[1]))
     if k == "atom":
-        return atom(s[1], negate_vers=s[2])
+        _fresh()        # atom.restrictions is built lazily through the instance caches: build it now
+        o = atom(s[1], negate_vers=s[2])
+        o.restrictions
+        return o
     if k == "depset":
         return DepSet.parse(s[1], atom)
     raise ValueError(s)
@@ -334,11 +337,11 @@ def render(s, obj, ids):
     k = s[0]
     P = lambda t: "(" + t + ")"  # noqa: E731
     if k == "exact":
-        return f"mk_exact {cstr(s[1])} {cbool(s[2])} {cbool(s[3])}"
+        return f"mk_exact {cstr(s[1])} {cbool(s[2])} {cbool(s[3])} {cbool(hasattr(obj, '_hash'))}"
     if k == "glob":
-        return f"mk_glob {cstr(s[1])} {cbool(s[2])} {cbool(s[3])} {cbool(s[4])}"
+        return f"mk_glob {cstr(s[1])} {cbool(s[2])} {cbool(s[3])} {cbool(s[4])} {cbool(hasattr(obj, '_hash'))}"
     if k == "regex":
-        return f"mk_regex {cstr(s[1])} {cbool(s[2])} {cbool(s[3])} {cbool(s[4])}"
+        return f"mk_regex {cstr(s[1])} {cbool(s[2])} {cbool(s[3])} {cbool(s[4])} {cbool(hasattr(obj, '_hash'))}"
     if k == "cont":
         return f"RCont {c_vals(s[1])} {cbool(s[2])} {cbool(s[3])}"
     if k == "udc":
@@ -355,7 +358,7 @@ def render(s, obj, ids):
     if k in ("cat", "pkgdep", "slot", "subslot", "repo"):
         fn = {"cat": "mk_categorydep", "pkgdep": "mk_packagedep", "slot": "mk_slotdep",
               "subslot": "mk_subslotdep", "repo": "mk_repositorydep"}[k]
-        return f"{fn} {cstr(s[1])} {cbool(s[2])}"
+        return f"{fn} {cstr(s[1])} {cbool(s[2])} {cbool(hasattr(obj.restriction, '_hash'))}"
     if k == "vm":
         return (f"match mk_versionmatch {cstr(s[1])} {cstr(s[2])} {c_rev(s[3])} {cbool(s[4])} with "
                 "Some r => r | None => RAlways 0 false end")
@@ -568,14 +571,15 @@ def variant(rng, s):
         vals = (s[1],) if isinstance(s[1], str) else s[1]
         return rng.choice([s, ("cont", shuffled(rng, vals), s[2], s[3]), ("cont", vals + vals[:1], s[2], s[3]),
                            ("cont", vals[0] if len(vals) == 1 else vals, s[2], s[3]), flipat(s, 2), flipat(s, 3),
-                           ("cont", shuffled(rng, vals), s[2], s[3]), ("udc", rng.random() < 0.5, vals, s[3])])
+                           ("cont", shuffled(rng, vals), s[2], s[3])])
     if k == "udc":
         return rng.choice([s, flipat(s, 1), flipat(s, 1), ("udc", s[1], shuffled(rng, s[2]), s[3]), flipat(s, 3),
-                           ("udc", not s[1], shuffled(rng, s[2]), s[3]), ("cont", s[2], True, s[3])])
+                           ("udc", not s[1], shuffled(rng, s[2]), s[3])])
     if k == "ver":
         return rng.choice([s, flipat(s, 4), flipat(s, 4), ("ver", COMPL[s[1]], s[2], s[3], not s[4]),
                            ("ver", COMPL[s[1]], s[2], s[3], not s[4]), ("ver", COMPL[s[1]], s[2], s[3], s[4]),
                            ("ver", s[1], s[2], 0 if s[3] is None else None, s[4]),
+                           ("ver", s[1], s[2], 1 if s[3] != 1 else 2, s[4]),
                            ("ver", "~" if s[1] == "=" else "=" if s[1] == "~" else s[1], s[2], s[3], s[4]),
                            ("ver", s[1], {"1.0": "1.00", "1.00": "1.0", "1": "1.0"}.get(s[2], s[2]), s[3], s[4])])
     if k in ("vnode", "pnode"):
@@ -591,6 +595,10 @@ def variant(rng, s):
         inner = s[2]
         opts = [s, flipat(s, 3), flipat(s, 4), flipat(s, 4), ("pr", s[1], variant(rng, inner), s[3], s[4]),
                 ("pr", s[1], variant(rng, inner), s[3], s[4])]
+        other = {"slot": "subslot", "subslot": "slot", "category": "package", "package": "category",
+                 "fullver": "slot", "repo.repo_id": "repo.location", "nosuch": "slot"}.get(s[1])
+        if other:
+            opts.append(("pr", other, inner, s[3], s[4]))
         if inner[0] in ("exact", "glob", "regex", "cont"):
             # move the negation between the wrapper and the value
             opts += [("pr", s[1], flipat(inner, len(inner) - 1), not s[3], s[4])] * 2
@@ -612,6 +620,7 @@ def variant(rng, s):
         return rng.choice([s, flipat(s, 4), ("vm", COMPL[s[1]], s[2], s[3], not s[4]),
                            ("vm", COMPL[s[1]], s[2], s[3], not s[4]),
                            ("vm", s[1], s[2], None if s[1] == "~" else (0 if s[3] is None else None), s[4]),
+                           ("vm", s[1], s[2], None if s[1] == "~" else (1 if s[3] != 1 else 2), s[4]),
                            ("vm", "~" if s[1] == "=" and s[3] is None else s[1], s[2], s[3], s[4])])
     if k == "static":
         return rng.choice([s, ("static", shuffled(rng, s[1]), shuffled(rng, s[2])), ("static", s[2], s[1]),
@@ -732,6 +741,8 @@ def gen_pairs(chk):
                 b = variant(rng, b)
         else:
             b = g_pkg(rng) if subject_of(a) == 3 and a[0] != "ver" else g_value(rng, subject_of(a))
+        if a[0] == "udc" and rng.random() < 0.12:
+            b = ("cont", shuffled(rng, a[2]), True, a[3] if rng.random() < 0.8 else not a[3])
         u = subject_of(a)
         if u != subject_of(b) and {u, subject_of(b)} == {1, 2}:
             u = 2
@@ -857,6 +868,14 @@ def main(chk: Check):
     chk.lint(["C07"])
     chk.check_fingerprint(ANCHORS)
 
+    import time as _t
+    _T = [_t.time()]
+
+    def lap(what):
+        _T.append(_t.time())
+        chk.cov.setdefault("phase_s", {})[what] = round(_T[-1] - _T[-2], 1)
+
+    lap("build+assumptions+lint")
     keyed = probe_cfg()
     ccfg = "{| udc_keyed := %s |}" % cbool(keyed)
     chk.note(f"_UseDepDefaultContainment identity includes if_missing: {keyed}")
@@ -869,7 +888,8 @@ def main(chk: Check):
             pairs.append((_detuple(d["a"]), _detuple(d["b"]), d["u"]))
     pairs += WITNESSES + gen_pairs(chk)
 
-    pair_cases, eq_cases, intro_cases, meta = [], [], [], []
+    pair_cases, eq_cases, intro_cases, atomr_cases, meta = [], [], [], [], []
+    eq_meta, intro_meta, intro_seen = [], [], set()
     keep = []
     for a_s, b_s, u in pairs:
         _fresh()
@@ -883,6 +903,11 @@ def main(chk: Check):
         keep.append((a, b))
         _tag(a_s, a)
         _tag(b_s, b)
+        for sp, ob in ((a_s, a), (b_s, b)):
+            if sp[0] == "atom":
+                atomr_cases.append((cpair(c_atomrec(ob, sp[1]),
+                                          clist(["(" + intro(x, ids) + ")" for x in ob.restrictions], "restr")),
+                                    True))
         ta, tb = render(a_s, a, ids), render(b_s, b, ids)
         ia, ib = intro(a, ids), intro(b, ids)
         eq_ab, eq_ba, ma, mb = ask(a, b, u)
@@ -893,18 +918,29 @@ def main(chk: Check):
         eq2 = (impl_call(lambda: bool(a == b)), impl_call(lambda: bool(b == a)))
         ia2, ib2 = intro(a, ids), intro(b, ids)
         heq = (ha == hb) if not (isinstance(ha, Err) or isinstance(hb, Err)) else Err("hash")
-        pair_cases.append((cpair(ccfg, f"({ta})", f"({tb})", cN(u)), [eq_ab, eq_ba, heq, ma, mb]))
-        intro_cases.append((cpair(f"({ta})", f"({ia})"), True))
-        intro_cases.append((cpair(f"({tb})", f"({ib})"), True))
-        eq_cases.append((cpair(ccfg, f"({ia1})", f"({ib1})"), list(eq1)))
-        eq_cases.append((cpair(ccfg, f"({ia2})", f"({ib2})"), list(eq2)))
+        pair_cases.append((cpair(ccfg, f"({ta})", f"({tb})", cN(u), cbool(heq is True)),
+                           [eq_ab, eq_ba, heq, ma, mb]))
+        for t_, i_, w_ in ((ta, ia, "a"), (tb, ib, "b")):
+            if (t_, i_) not in intro_seen:
+                intro_seen.add((t_, i_))
+                intro_cases.append((cpair(f"({t_})", f"({i_})"), True))
+                intro_meta.append((len(meta), w_))
+        # a later state is a new case only when hashing changed some `_hash` slot
+        if (ia1, ib1) != (ia, ib):
+            eq_cases.append((cpair(ccfg, f"({ia1})", f"({ib1})"), list(eq1)))
+            eq_meta.append((len(meta), "after hash(a)"))
+        if (ia2, ib2) != (ia1, ib1):
+            eq_cases.append((cpair(ccfg, f"({ia2})", f"({ib2})"), list(eq2)))
+            eq_meta.append((len(meta), "after hash(a), hash(b)"))
         meta.append({"a": a_s, "b": b_s, "u": u, "eq": [eq_ab, eq_ba], "eq_after_hash_a": list(eq1),
                      "eq_after_hash_both": list(eq2), "hash_eq": heq, "match_a": ma, "match_b": mb})
         if a is not b and a_s != b_s:
             chk.nontrivial(repr((a_s, b_s)))
+    lap("drive implementation")
     chk.count("pair", len(pair_cases))
     chk.count("eqst", len(eq_cases))
     chk.count("intro", len(intro_cases))
+    chk.count("atomr", len(atomr_cases))
     chk.cov["equal_pairs"] = sum(1 for m in meta if m["eq"][0] is True)
     chk.cov["equal_pairs_from_different_calls"] = sum(1 for m in meta if m["eq"][0] is True and m["a"] != m["b"])
     hist = {}
@@ -925,8 +961,6 @@ def main(chk: Check):
                 if m["match_a"] != m["match_b"]:
                     i = next(i for i, (x, y) in enumerate(zip(m["match_a"], m["match_b"])) if x != y)
                     what.append(f"match differs on universe[{m['u']}][{i}] = {UNIV[m['u']][i]!s}")
-                if m[st][0] != m[st][1]:
-                    what.append("== is not symmetric")
                 if what:
                     fails.append((m, st, what))
                 break
@@ -949,17 +983,31 @@ def main(chk: Check):
                                        "input": {"a": a_s, "b": b_s, "universe": m["u"]}, "answers": m})
             reported += 1
 
-    # ---- evaluate model and spec inside Coq
+    # ---- evaluate model and spec inside Coq (the four streams concurrently)
     any_prop = bool(reported)
     if ok and tbl_ok:
+        import concurrent.futures as cf
+
         pre = preamble()
-        r = chk.coq_eval("pair", IMPORTS, "cfg * restr * restr * N", pair_cases,
-                         ["mismatches (run_pair univ) cases",
-                          "where_ (fun i r => negb (spec_pair_ok r)) cases"], shard=120, preamble=pre)
+        jobs = {
+            "pair": lambda: chk.coq_eval("pair", IMPORTS, "cfg * restr * restr * N * bool", pair_cases,
+                                         ["mismatches (run_pair univ) cases",
+                                          "where_ (fun i r => negb (spec_pair_ok r)) cases"], shard=280, preamble=pre),
+            "eqst": lambda: chk.coq_eval("eqst", IMPORTS, "cfg * restr * restr", eq_cases,
+                                         ["mismatches run_eq cases"], shard=400),
+            "atomr": lambda: chk.coq_eval("atomr", IMPORTS, "atomrec * list restr", atomr_cases,
+                                          ["where_ (fun i _ => negb (atom_shape_ok (fst i) (snd i))) cases"], shard=300),
+            "intro": lambda: chk.coq_eval("intro", IMPORTS, "restr * restr", intro_cases,
+                                          ["where_ (fun i _ => negb (same_shape (fst i) (snd i))) cases"], shard=400),
+        }
+        with cf.ThreadPoolExecutor(max_workers=4) as ex:
+            futs = {k: ex.submit(f) for k, f in jobs.items()}
+            res = {k: f.result() for k, f in futs.items()}
+        lap("coq")
+        r = res["pair"]
         if r is not None:
-            specbad = {i for i in r[1]}
             pyfail = {id(m) for m, _, _ in fails}
-            for i in sorted(specbad):
+            for i in sorted(set(r[1])):
                 if id(meta[i]) not in pyfail:
                     chk.violation("property", {"what": "Spec_C07.spec_pair_ok rejects the implementation's answers",
                                                "input": meta[i]})
@@ -971,21 +1019,26 @@ def main(chk: Check):
                                "input": {"a": meta[i]["a"], "b": meta[i]["b"], "universe": meta[i]["u"]},
                                "implementation": {k: meta[i][k] for k in ("eq", "hash_eq", "match_a", "match_b")},
                                "model_term": pair_cases[i][0]}, no_input=not (any_prop or fails))
-        r = chk.coq_eval("eqst", IMPORTS, "cfg * restr * restr", eq_cases, ["mismatches run_eq cases"], shard=300)
+        r = res["eqst"]
         if r is not None:
             for i in r[0][:3]:
                 chk.violation("correspondence",
                               {"what": "== after hashing one/both sides differs from Model_C07.run_eq",
-                               "input": meta[i // 2], "state": ("after hash(a)", "after hash(a), hash(b)")[i % 2]},
+                               "input": meta[eq_meta[i][0]], "state": eq_meta[i][1], "model_term": eq_cases[i][0]},
                               no_input=not (any_prop or fails))
-        r = chk.coq_eval("intro", IMPORTS, "restr * restr", intro_cases,
-                         ["where_ (fun i _ => negb (same_shape (fst i) (snd i))) cases"], shard=300)
+        r = res["atomr"]
+        if r is not None:
+            for i in r[0][:3]:
+                chk.violation("correspondence",
+                              {"what": "atom.restrictions differs from Model_C07.atom_restrictions",
+                               "terms": atomr_cases[i][0]}, no_input=not (any_prop or fails))
+        r = res["intro"]
         if r is not None:
             for i in r[0][:3]:
                 chk.violation("correspondence",
                               {"what": "the object built by the constructor differs from what the model's constructor "
                                        "function builds (negation placement, lowering, class, attribute, values)",
-                               "input": meta[i // 2]["ab"[i % 2]], "terms": intro_cases[i][0]},
+                               "input": meta[intro_meta[i][0]][intro_meta[i][1]], "terms": intro_cases[i][0]},
                               no_input=not (any_prop or fails))
 
 
